@@ -1,7 +1,9 @@
 ------------------------------- MODULE TypeGraph -------------------------------
 (* Type reference graphs (property C06).  Types 0..N-1, type 0 is the root.     *)
 (* Every type is an object whose properties are a scalar, a reference to a type *)
-(* (plain / optional / nullable / inside an array) or a choice `@x | @y`.       *)
+(* (plain / optional / nullable / inside an array) or a choice `@x | @y`; with  *)
+(* RootForms a type may also carry `nullable` on its own root node, or be an    *)
+(* alias - nothing but a reference to another type, nullable or not.            *)
 (*                                                                              *)
 (*   Finite(t)        t has a finite instance: least fixpoint where a property  *)
 (*                    is harmless unless it is a mandatory plain link, a plain  *)
@@ -20,7 +22,8 @@ CONSTANTS N,          \* number of types
           MaxOther,   \* max properties of every other type
           Ring,       \* TRUE: type i may only refer to i+1 (mod N) and to the root (long cycles with chords)
           ModesUsed,  \* subset of Modes explored for references (e.g. {"plain"} for the pure requirement graphs)
-          FatTypes    \* how many non-root types (1..FatTypes) may have as many properties as the root
+          FatTypes,   \* how many non-root types (1..FatTypes) may have as many properties as the root
+          RootForms   \* subset of {"object", "nullable-object", "alias", "nullable-alias"}: what a type's own root node may be
 
 Types == 0..(N - 1)
 Modes == {"plain", "optional", "nullable", "array"}
@@ -35,18 +38,25 @@ Kinds(t)   == {Scalar} \cup Refs(t) \cup Choices(t)
 PropSets(t, n) == {{}} \cup {{p} : p \in Kinds(t)} \cup
                   (IF n >= 2 THEN {{p, q} : p \in Kinds(t), q \in Kinds(t)} ELSE {})
 
-VARIABLES def,     \* [defined types -> set of properties]
+VARIABLES def,     \* [defined types -> [form, props]]
           next     \* next type to define; N when the graph is complete
 vars == <<def, next>>
 
+\* an alias is written as its single plain reference
+AliasSets(t) == {{[k |-> "ref", t |-> x, u |-> x, m |-> "plain"]} : x \in Targets(t)}
 Init == def = <<>> /\ next = 0
-Define(S) == /\ next < N
-             /\ def' = Append(def, S)       \* def[i+1] is the property set of type i
-             /\ next' = next + 1
-Next == \E S \in PropSets(next, IF next = 0 \/ next <= FatTypes THEN MaxRoot ELSE MaxOther) : Define(S)
+Define(f, S) == /\ next < N /\ f \in RootForms
+                /\ (f \in {"alias", "nullable-alias"}) => S \in AliasSets(next)
+                /\ def' = Append(def, [form |-> f, props |-> S])       \* def[i+1] describes type i
+                /\ next' = next + 1
+Next == \E f \in RootForms :
+          \E S \in (IF f \in {"alias", "nullable-alias"} THEN AliasSets(next)
+                    ELSE PropSets(next, IF next = 0 \/ next <= FatTypes THEN MaxRoot ELSE MaxOther)) : Define(f, S)
 Spec == Init /\ [][Next]_vars
 
-Props(t) == def[t + 1]
+Props(t) == def[t + 1].props
+Form(t) == def[t + 1].form
+NullableRoot(t) == Form(t) \in {"nullable-object", "nullable-alias"}     \* null is an instance of the type
 Complete == next = N
 
 \* ---- finite instance: least fixpoint, N+1 rounds suffice
@@ -55,15 +65,15 @@ PropOK(p, F) == \/ p.k = "scalar"
                 \/ p.k = "ref" /\ p.t \in F
                 \/ p.k = "choice" /\ (p.t \in F \/ p.u \in F)
 RECURSIVE Fix(_, _)
-Fix(F, n) == IF n = 0 THEN F ELSE Fix({t \in Types : \A p \in Props(t) : PropOK(p, F)}, n - 1)
+Fix(F, n) == IF n = 0 THEN F ELSE Fix({t \in Types : NullableRoot(t) \/ \A p \in Props(t) : PropOK(p, F)}, n - 1)
 FiniteSet == Fix({}, N + 1)
 Finite(t) == t \in FiniteSet
 
 \* ---- the root requires itself through mandatory plain references
-Succ(t) == {p.t : p \in {q \in Props(t) : q.k = "ref" /\ q.m = "plain"}}
+Succ(t) == IF NullableRoot(t) THEN {} ELSE {p.t : p \in {q \in Props(t) : q.k = "ref" /\ q.m = "plain"}}
 RECURSIVE Reach(_, _)
 Reach(S, n) == IF n = 0 THEN S ELSE Reach(S \cup UNION {Succ(t) : t \in S}, n - 1)
-SelfRequiring == 0 \in Reach(Succ(0), N)
+SelfRequiring == 0 \in Reach(Succ(0), N)          \* (a nullable root has no successors: never self-requiring)
 
 \* any cycle at all (used by the harness to pick the interesting graphs)
 AllSucc(t) == {p.t : p \in {q \in Props(t) : q.k # "scalar"}} \cup {p.u : p \in {q \in Props(t) : q.k = "choice"}}
@@ -75,12 +85,13 @@ HasCycle == \E t \in Types : t \in ReachAll(AllSucc(t), N)
 Theorem == Complete => (SelfRequiring => ~Finite(0))
 FixIsFixpoint == Complete => (Fix(FiniteSet, 1) = FiniteSet)
 NoRefsAreFinite == Complete => ((\A t \in Types : \A p \in Props(t) : p.k = "scalar") => FiniteSet = Types)
+NullableRootsAreFinite == Complete => \A t \in Types : NullableRoot(t) => Finite(t)
 
 \* ---- the example-expansion process terminates: a type is entered at most 3 times along a branch
 \* (variant: the per-type counters strictly increase along a branch and are bounded)
 MaxVisitsPerBranch == 3
 ExpansionBound == N * MaxVisitsPerBranch
 
-Emit == Complete => PrintT(ToJson([types |-> [t \in Types |-> Props(t)], finite |-> Finite(0),
+Emit == Complete => PrintT(ToJson([types |-> [t \in Types |-> Props(t)], forms |-> [t \in Types |-> Form(t)], finite |-> Finite(0),
                                    selfreq |-> SelfRequiring, cycle |-> HasCycle]))
 ===============================================================================
